@@ -104,6 +104,24 @@ public:
 			 , static_cast<RNGT<TUtility>&>(*this)
 			 HFSM2_IF_LOG_INTERFACE(, logger)}
 	{}
+
+	/// @brief A copy draws from its own generator, which continues the original's sequence
+	HFSM2_CONSTEXPR(14)	InstanceT(const InstanceT& other)											noexcept
+		: RNGT<TUtility>{static_cast<const RNGT<TUtility>&>(other)}
+		, Base{static_cast<const Base&>(other)}
+	{
+		this->_core.rng = this;
+	}
+
+	HFSM2_CONSTEXPR(14)	InstanceT(InstanceT&& other)												noexcept
+		: RNGT<TUtility>{static_cast<RNGT<TUtility>&&>(other)}
+		, Base{static_cast<Base&&>(other)}
+	{
+		this->_core.rng = this;
+	}
+
+	InstanceT& operator = (const InstanceT&) = delete;
+	InstanceT& operator = (InstanceT&&)		 = delete;
 };
 
 // - - - - - - - - - - - - - - - - - - - - - - - - - - - - - - - - - - - - - - -
@@ -185,6 +203,24 @@ public:
 		, Base{static_cast<RNGT<TUtility>&>(*this)
 			 HFSM2_IF_LOG_INTERFACE(, logger)}
 	{}
+
+	/// @brief A copy draws from its own generator, which continues the original's sequence
+	HFSM2_CONSTEXPR(14)	InstanceT(const InstanceT& other)											noexcept
+		: RNGT<TUtility>{static_cast<const RNGT<TUtility>&>(other)}
+		, Base{static_cast<const Base&>(other)}
+	{
+		this->_core.rng = this;
+	}
+
+	HFSM2_CONSTEXPR(14)	InstanceT(InstanceT&& other)												noexcept
+		: RNGT<TUtility>{static_cast<RNGT<TUtility>&&>(other)}
+		, Base{static_cast<Base&&>(other)}
+	{
+		this->_core.rng = this;
+	}
+
+	InstanceT& operator = (const InstanceT&) = delete;
+	InstanceT& operator = (InstanceT&&)		 = delete;
 };
 
 #endif
